@@ -119,6 +119,15 @@ def gen_workflow(rng, max_nodes=6, speeds=(10,), allow_zero=True, shape=None):
         edges = [(0, i) for i in range(1, n - 1)] + [(i, n - 1) for i in range(1, n - 1)]
     elif shape == "fan":
         edges = [(0, i) for i in range(1, n)]
+    elif shape == "fanin":
+        # several independent roots of similar, short runtimes joined by one task: which root ends last is
+        # decided at run time (delays, busy machines), not by the plan
+        n = max(n, 3)
+        while len(nodes) < n:
+            nodes.append({"id": len(nodes), "comp": sp})
+        for nd in nodes[:-1]:
+            nd["comp"] = sp * rng.randint(1, 3)
+        edges = [(i, n - 1) for i in range(n - 1)]
     elif shape == "chains2":
         # a root with two parallel chains of very different length: 0 -> 1 -> 3 (-> 5 ...) and 0 -> 2 -> 4 (...)
         edges = [(0, 1), (0, 2)] + [(i, i + 2) for i in range(1, n - 2)]
@@ -345,6 +354,11 @@ def serial_bound(spec):
         b += o["duration"] + (2 * math.ceil(vol / rate) if rate > 0 else 0) + c
         for n in o["workflow"]["nodes"]:
             rt = max(n["comp"] // slow_cpu, n.get("task_data", 0) // slow_bw)
+            if spec.get("planning") == "static" and n["comp"] == 0 and n.get("task_data", 0) == 0:
+                # a task without work runs for the duration its plan row gives it (Task.do_work recomputes the
+                # duration only for tasks that carry work); the harness's StaticPlanning plans runtime + slack
+                # (Lean: C05_planSerialBound / C05_bound_plan_counterexample_*)
+                rt = max(rt, spec.get("static_slack", 0) or 0)
             if d and "prob" in d:
                 rt = rt * 5 + 5          # normal(mu, <=0.75 mu) sample above the mean: far below 5x
             elif d:
